@@ -319,6 +319,15 @@ impl chain::Listen for Gatekeeper {
             // Remove the outdated users from memory first.
             {
                 let mut registered_users = self.registered_users.lock().unwrap();
+                // The list was made before taking the lock: skip whoever has renewed in the meantime.
+                let outdated_users: Vec<UserId> = outdated_users
+                    .into_iter()
+                    .filter(|user_id| {
+                        registered_users.get(user_id).map_or(false, |info| {
+                            height >= info.subscription_expiry.saturating_add(self.expiry_delta)
+                        })
+                    })
+                    .collect();
                 // Removing each outdated user in a loop is more efficient than retaining non-outdated users
                 // because retaining would loop over all the available users which is always more than the outdated ones.
                 for outdated_user in outdated_users.iter() {
